@@ -206,7 +206,17 @@ func genSoup(t *rapid.T) *Soup {
 			e += " " + pick(t, "ncOp", []string{">", "<", "=", "!=", ">=", "+", "*"}) + " " + pick(t, "ncRhs", []string{"1", "0*0", "'x'", "b", nestedCall(t, "nc2", 2)})
 		}
 		win := pick(t, "ncWin", []string{"TumblingWindow('1s')", "CountingWindow(3)", "g, CountingWindow(2)", "SessionWindow('1s')"})
-		switch rapid.IntRange(0, 5).Draw(t, "ncCtx") {
+		switch rapid.IntRange(0, 10).Draw(t, "ncCtx") {
+		case 6:
+			sp.Pre = []byte("SELECT changed_cols(\"p_\", true, " + e + ") AS r, count(*) AS c FROM s GROUP BY " + win)
+		case 7:
+			sp.Pre = []byte("SELECT lag(" + e + ") AS r, count(*) AS c FROM s GROUP BY " + win)
+		case 8:
+			sp.Pre = []byte("SELECT count(*) AS c FROM s GROUP BY " + e + ", " + win)
+		case 9:
+			sp.Pre = []byte("SELECT a FROM s JOIN m ON " + e)
+		case 10:
+			sp.Pre = []byte("SELECT lag(a) OVER (PARTITION BY g WHEN " + e + ") AS r FROM s WHERE had_changed(true, " + e + ")")
 		case 0:
 			sp.Pre = []byte("SELECT count(*) AS c FROM s GROUP BY " + win + " HAVING " + e)
 		case 1:
